@@ -10,7 +10,7 @@ def run(ctx):
   thorough = ctx.tier == 'thorough'
   ctx.rule = ("17 estimators x documented option values (init / prior / basis / embedding_type x k / n_components in 1..d; "
               "diagonal MMC excluded) x well-formed class-structured data on a 2^-10 grid (2 <= d <= 5, >= 4d samples, >= 2 "
-              "classes with >= 4 members, label-consistent tuples): fit returns self, components_ is a finite real float "
+              "classes with >= 4 members, label-consistent tuples; class labels and chunk ids 0..C-1 or renamed 1-based / gapped): fit returns self, components_ is a finite real float "
               "array of the documented shape, n_features_in_ = d, transform maps (n, d) to (n, k), M is symmetric and PSD "
               "(exact LDL^T of M + 1e-9 max|M| I on rationals). distinct = distinct (estimator, options, data).")
   ctx.trusted = ["Coq 8.16.1 kernel + vm_compute", "shape rule and PSD certificate checkers in Model/CaseDefs.v",
@@ -21,6 +21,9 @@ def run(ctx):
   for rnd in range(nrounds):
     for name, kw, data in fits.zoo_specs(ctx.rng, variants=True):
       d = data['d']
+      if ctx.rng.random() < 0.5:
+        data = fits.encode_labels(ctx.rng, data)     # class labels / chunk ids are names: 1-based, gapped, ...
+      ctx.hist('label_encoding', data.get('label_encoding', '0..C-1'))
       est = fits.make_estimator(name, kw)
       opt = {k: (v if not isinstance(v, np.ndarray) else 'ndarray%s' % (v.shape,)) for k, v in kw.items()}
       ctx.count('fit_runs', 1)
